@@ -22,7 +22,7 @@ def plan(tier):
                                  "exp_optimum_above_500", "exp_optimum_below_500", "exp_straddle_500",
                                  "exp_zero_entries", "exp_ties",
                                  "logsum_spread_in_fastexp_window", "logsum_spread_beyond_window",
-                                 "more_than_256_states", "logsum_spread_709_78_to_710_nats",
+                                 "more_than_256_states", "logsum_spread_709_78_to_710_nats", "subnormal_probability_entry",
                                  "decoupled_takeover_beyond_500_nats", "decoupled_takeover_below_500_nats"],
         "rule": "configuration dimensions: three constructors x {plain, opt_end without, opt_end with end} and the memory "
                 "layout of the matrices handed to them (row major, column major, strided copy: same values); spec->impl: the S=2,M=2,Den=2 model family of the MC run x all observation sequences T<=3 replayed "
